@@ -34,13 +34,23 @@ impl FF {
 pub fn well_conditioned(terms: &[TermDesc], x: &[Point]) -> bool { well_conditioned_with(terms, x, 0.12) }
 
 /// `smin`: the smallest |sin| of a bend / flanking angle at which the finite difference is still trusted
-pub fn well_conditioned_with(terms: &[TermDesc], x: &[Point], smin: f64) -> bool {
+pub fn well_conditioned_with(terms: &[TermDesc], x: &[Point], smin: f64) -> bool { conditioned(terms, x, smin, smin) }
+
+/// Bends are smooth functions of the coordinates THROUGH collinearity when the multiplicity is an integer (the energy is even
+/// in the deviation from 180 degrees), so their finite difference can be trusted arbitrarily close to it — only exact
+/// collinearity (|sin| <= 1e-9, where the code returns a zero gradient by its guard) is left out; torsions and inversions keep `smin`.
+pub fn well_conditioned_grazing(terms: &[TermDesc], x: &[Point]) -> bool {
+    terms.iter().all(|t| t.kind != "angle_a" || (t.params[1] - t.params[1].round()).abs() < 1e-12) && conditioned(terms, x, 1e-9, 0.03)
+}
+
+fn conditioned(terms: &[TermDesc], x: &[Point], smin_bend: f64, smin: f64) -> bool {
+    let sin_ok_b = |i: usize, j: usize, k: usize| angle_value(i, j, k, x).sin().abs() > smin_bend;
     let sin_ok = |i: usize, j: usize, k: usize| angle_value(i, j, k, x).sin().abs() > smin;
     for t in terms {
         let ix = &t.idxs;
         let ok = match t.kind {
             "bond" | "lj" | "repulsion" => distance(ix[0], ix[1], x) > 0.4,
-            "angle_a" | "angle_b" => sin_ok(ix[0], ix[1], ix[2]) && distance(ix[0], ix[1], x) > 0.3 && distance(ix[2], ix[1], x) > 0.3,
+            "angle_a" | "angle_b" => sin_ok_b(ix[0], ix[1], ix[2]) && distance(ix[0], ix[1], x) > 0.3 && distance(ix[2], ix[1], x) > 0.3,
             "torsion" => {
                 let mut ok = sin_ok(ix[0], ix[1], ix[2]) && sin_ok(ix[1], ix[2], ix[3]);
                 if ok {
@@ -73,6 +83,12 @@ pub fn well_conditioned_with(terms: &[TermDesc], x: &[Point], smin: f64) -> bool
         if !ok { return false; }
     }
     true
+}
+
+/// `fd_check` for geometries where the whole gradient may be tiny: same stencil, tolerance 1e-6 of the largest component but
+/// never below the round-off floor of the difference quotient
+pub fn fd_check_abs(out: &mut Out, ff: &mut FF, terms: &[TermDesc], x: &[Point], label: &str, replay: &str, worst: &mut f64) -> bool {
+    fd_check(out, ff, terms, x, label, replay, worst)
 }
 
 pub fn fd_check(out: &mut Out, ff: &mut FF, terms: &[TermDesc], x: &[Point], label: &str, replay: &str, worst: &mut f64) -> bool {
@@ -179,6 +195,25 @@ pub fn run(out: &mut Out, seed: u64, tier: &str) {
         let replay = format!("uff forcefield built on\n{}evaluated (angle {}-{}-{} opened to {:.2} deg) on\n{}", m.xyz_text(), i, j, k, 180.0 - delta.to_degrees(), g.xyz_text());
         if fd_check(out, &mut ff, &terms, &x, "uff wide-angle", &replay, &mut worst) { n_fd += 1; n_wide += 1; }
     }
+    // grazing geometries: linear molecules with their end atoms a few 1e-5 A off the axis (what another program's five
+    // decimals leave of an exactly linear structure): the bends are within 1e-4 rad of 180 degrees, not exactly on it
+    let mut n_graze = 0usize;
+    for zs in [vec![1usize, 6, 6, 1], vec![1, 6, 7], vec![8, 6, 8], vec![16, 6, 16], vec![9, 4, 9], vec![17, 80, 17], vec![1, 6, 6, 6, 6, 1]] {
+        for rep in 0..(if tier == "thorough" { 12 } else { 3 }) {
+            let mut g = linear_chain(&zs, 1.0);
+            for p in g.xs.iter_mut() { p[1] += rng.range(-1.0, 1.0) * 10f64.powf(rng.range(-5.5, -3.8)); p[2] += rng.range(-1.0, 1.0) * 10f64.powf(rng.range(-5.5, -3.8)); }
+            if rep % 2 == 1 { let r = random_rotation(&mut rng); g = moved(&g, &r, [rng.range(-2., 2.), rng.range(-2., 2.), rng.range(-2., 2.)]); }
+            let mol = match catch(|| g.build()) { Some(x) => x, None => continue };
+            let mut ff = match FF::build("uff", &mol) { Some(f) => f, None => continue };
+            let terms = ff.terms();
+            let x = g.points();
+            let e = ff.energy(&x);
+            if !(e.is_finite() && e.abs() < 1e7) || !well_conditioned_grazing(&terms, &x) { continue; }
+            let replay = format!("uff forcefield on (almost linear: atoms up to 1e-4 A off the axis)\n{}", g.xyz_text());
+            if fd_check_abs(out, &mut ff, &terms, &x, "uff grazing", &replay, &mut worst) { n_fd += 1; n_graze += 1; }
+        }
+    }
+    out.stat("grazing_linear_geometries_fd_checked", n_graze);
     out.stat("wide_angle_geometries_fd_checked", n_wide);
     out.stat("cases", n_cases);
     out.stat("fd_checked_geometries", n_fd);
